@@ -1,5 +1,6 @@
 """C18 — query editor vs. reference editor."""
 ID = "C18"
+EXTRA_PROPS = ["QueryOpsTables"]   # fourteen editing methods + the dispatch of Query::handle as TRANSLATED from src/query.rs = the model (Props/QueryOpsTables.lean)
 N_QUICK, N_THOROUGH = 4000, 200000
 RULE = ("random initial queries/histories + action sequences (<= 80 actions) over the 20 actions and the alphabet "
         "{a-z 0-9 _-./ blank tab é 中 U+3000}; non-trivial = at least 3 actions of which one kill/yank/history/word action "
